@@ -66,6 +66,7 @@ type Property struct {
 	Assumptions []string
 	ReplayTags  string // extra build tags for native replay (e.g. "sqlite")
 	NoReplay    map[string]string // harness -> reason why native replay is not possible
+	OnlyMsgPrefix string          // only violations whose message starts with this belong to the property (harnesses shared with another property)
 }
 
 var registry = map[string]*Property{}
@@ -494,6 +495,7 @@ func runProperty(prop *Property, tier, replayPath string, workers int, solver st
 		newViolations                                                               []string
 		knownHit                                                                    = map[string]string{}
 		allViolations                                                               int
+		otherPropertyEvents                                                         int
 	)
 	for _, run := range runs {
 		if only != "" && !strings.Contains(run.Name, only) {
@@ -554,6 +556,10 @@ func runProperty(prop *Property, tier, replayPath string, workers int, solver st
 		groups := map[string][]interp.Violation{}
 		var order []string
 		for _, v := range res.Violations {
+			if prop.OnlyMsgPrefix != "" && !strings.HasPrefix(v.Msg, prop.OnlyMsgPrefix) {
+				otherPropertyEvents++
+				continue
+			}
 			k := v.Kind + "|" + v.Msg + "|" + v.Tag
 			if _, ok := groups[k]; !ok {
 				order = append(order, k)
@@ -642,6 +648,7 @@ func runProperty(prop *Property, tier, replayPath string, workers int, solver st
 		"inconclusive":                  inconclusive,
 		"known_findings_reported":       kh,
 		"outside_the_claim":             prop.Outside,
+		"events_belonging_to_other_properties_ignored": otherPropertyEvents,
 		"explanation":                   "bounded symbolic execution of go/ssa lowered from /repo's working tree; states = symbolic paths completed, transitions = solver-decided branches + fork choices",
 	}
 	if prop.Bounds != nil {
